@@ -28,8 +28,12 @@ def _units():
     import leafarms
     for n in leafarms.arm_names():
         units.append({"id": f"C02.e2.leaf.{n}", "props": ["C02"], "kind": "leaf_arm", "file": "src/run_prim.rs", "fn": "run_prim_func",
-                      "arm": r"Primitive::" + n, "prim": n, "target": "",
+                      "arm": r"Primitive::" + n, "prim": n, "lenient": True, "target": "",
                       "desc": f"leaf {n}: the run-time arm moves exactly ({n}.args(), {n}.outputs()) values (numbers read from the real definitions table); nothing beneath is touched, also on failure"})
+    for n in leafarms.impl_arm_names():
+        units.append({"id": f"C02.e2.implleaf.{n}", "props": ["C02"], "kind": "leaf_arm", "file": "src/run_prim.rs", "fn": "run",
+                      "impl": r"^impl ImplPrimitive \{", "arm": r"ImplPrimitive::" + n, "prim": n, "table": "impl", "lenient": True, "target": "",
+                      "desc": f"implementation primitive {n}: the run-time arm of ImplPrimitive::run moves exactly ({n}.args(), {n}.outputs()) values (numbers printed by a driver linked against the repository); nothing beneath is touched, also on failure"})
     for n in leafarms.sys_arm_names():
         units.append({"id": f"C02.e2.sysleaf.{n}", "props": ["C02"], "kind": "leaf_arm", "file": "src/sys/mod.rs", "fn": "run_sys_op",
                       "arm": r"SysOp::" + n, "prim": "Sys_" + n, "lenient": True, "target": "",
@@ -152,7 +156,7 @@ def _emit_unit(gen, u):
                 except leafarms.NotLeafShaped as ex:
                     raise extract.AnchorLost(f"arm is no longer leaf-shaped: {ex}")
                 rep["rewrites"] = [{"rewrite": "R8", "what": x} for x in rlog]
-                tab = leafarms.primtable()
+                tab = leafarms.impltable() if u.get("table") == "impl" else leafarms.primtable()
                 if u["prim"] not in tab or tab[u["prim"]][0] < 0 or tab[u["prim"]][1] < 0:
                     raise extract.AnchorLost(f"primitive {u['prim']} has no fixed args/outputs in the definitions table")
                 A, O, _ = tab[u["prim"]]
